@@ -664,6 +664,51 @@ impl<'a> G<'a> {
     }
 }
 
+/// A REPL session over in-memory modules, with lines that fail to compile after importing a module
+/// for the first time. The modules have the same shape (same sequence of types / tuples) but their
+/// exported functions differ in capture count and body.
+pub fn module_session(r: &mut Rng, ev: &mut Ev) -> (Vec<(String, String)>, Vec<String>) {
+    ev.hit("gen:module-session");
+    let names = ["shapes", "squares", "cubes", "plain"];
+    let mut modules = vec![];
+    let nm = 2 + r.usize(3);
+    for (i, name) in names.iter().take(nm).enumerate() {
+        let k = r.range(2, 30);
+        let k2 = r.range(2, 9);
+        let text = match (i + r.usize(4)) % 4 {
+            0 => format!("scale = {k}, [area: #'int {{ [~, scale] __integer_multiply__ }}]"),
+            1 => format!("scale = {k}, [area: #'int {{ [~, ~] __integer_multiply__ }}]"),
+            2 => format!("scale = {k}, other = {k2}, [area: #'int {{ [[~, scale] __integer_add__, other] __integer_multiply__ }}]"),
+            _ => format!("scale = {k}, [area: #'int {{ | =0 => scale | [~, 1] __integer_subtract__ }}]"),
+        };
+        modules.push((name.to_string(), text));
+    }
+    let mut lines = vec![];
+    let nl = 3 + r.usize(4);
+    let mut bound = 0;
+    for li in 0..nl {
+        let m = &modules[r.usize(modules.len())].0;
+        let a = r.range(1, 9);
+        match r.below(7) {
+            // a line that imports and then fails to compile
+            0 | 1 => lines.push(format!("{a} %{m}.area oops{li}")),
+            2 => lines.push(format!("[{a}] %{m}.area")),
+            3 => {
+                let m2 = &modules[r.usize(modules.len())].0;
+                bound += 1;
+                lines.push(format!("a{bound} = {a} %{m}.area, b{bound} = {a} %{m2}.area, [a{bound}, b{bound}]"));
+            }
+            4 => lines.push(format!("{a} %{m}.area %{m}.area")),
+            5 => {
+                bound += 1;
+                lines.push(format!("f{bound} = &%{m}.area, {a} f{bound}"));
+            }
+            _ => lines.push(format!("{a} %{m}.area")),
+        }
+    }
+    (modules, lines)
+}
+
 /// A REPL session: a line of bindings, then lines that use them (and `@N` process references).
 pub fn session(r: &mut Rng, ev: &mut Ev) -> Vec<String> {
     let mut g = G { r, vars: vec![], next: 0, param: None, feats: vec![] };
